@@ -1,20 +1,103 @@
-HOOK_COMMITS = []
+HOOK_COMMITS = [
+    "7493c96 verif hook: skrifa hint engine in-crate harness module",
+    "(see `git -C /repo log --grep 'verif hook'`) read-fonts BitPage; skrifa decycler + glyf memory; write-fonts write/cmap/font_builder",
+]
 ENGINES = [
-    {"name": "kani", "path": "harness/", "serves_properties": ["C15"],
+    {"name": "mir2smt", "path": "lib/mir2smt_core.py", "serves_properties": ["C15", "C20"],
+     "kind_free_text": "nightly MIR dump of /repo crates -> SMT (z3 5.1 Int encoding with sign-case split; bit-vector cross-check) for loop-free integer functions at full machine width; translator validated against the real functions on concrete vectors every run"},
+    {"name": "kani", "path": "harness/", "serves_properties": ["C01", "C02", "C04", "C06", "C08", "C09", "C10", "C11", "C12", "C13", "C14", "C15", "C16", "C20"],
      "kind_free_text": "Kani 0.68 / CBMC 6.11 / cadical bounded model checking of the compiled /repo crates (harness crates with path dependencies on /repo, rebuilt from the working tree on every run)"},
 ]
 NOTES = ("Every check is `./vf check <ID>`: regenerates harness sources / dispatch tables from /repo, compiles the harness crates "
          "against /repo's working tree with cargo kani, poses one solver query per harness, replays any counterexample natively "
          "(dev + release) before printing VIOLATION, and writes evidence/<ID>.json. exit 2 = machinery problem (never a verdict).")
 CHECKS = {
+    "C01": {
+        "text": "Bounded model checking of read-fonts: for every FontRead/FontReadWithArgs impl found in the current sources (generator) the table is read from a symbolic buffer of symbolic length with symbolic arguments and every generated accessor is called; every hand-written accessor whose arguments can be synthesised gets its own query; plus FontRef/FileRef/CollectionRef/FontData entry points and a relocation query. Any reachable panic or loop beyond the unwinding bound fails.",
+        "design_ref": "DESIGN.md §3 C01",
+        "note": "Bounds: N=24 bytes (16 for hand-written accessors; larger for fixed-size tables that need it), walk depth 1, first 3 iterator items. Quick tier = core + a VERIF_SEED-rotated window of the generated queries whose calibrated cost is < 90 s; thorough = all. Inputs longer than N, deeper offset chains, thread schedules and the traversal module are outside the claim; harnesses that time out are listed as inconclusive in the evidence.",
+        "technique": "solver-based bounded model checking (Kani/CBMC SAT) of the compiled /repo code; harnesses generated from /repo/read-fonts on every run",
+    },
+    "C02": {
+        "text": "TrueType interpreter stepped once per opcode (256 solver queries) from an arbitrary stack/zone/cvt/storage state, two-step setter;op queries in the thorough tier, loop-budget kernel, scratch-memory allocators for any buffer length/alignment: no reachable panic.",
+        "design_ref": "DESIGN.md §3 C02",
+        "note": "State is constructed directly on the stack (8-slot value stack, 4-point zones); whole-font drawing, programs longer than 2 instructions, the CFF hinter, the auto-hinter, colour painting beyond C13 and the entire IFT client are outside the claim.",
+        "technique": "solver-based bounded model checking (Kani/CBMC SAT) of the compiled /repo code, one query per opcode generated from the Opcode enum",
+    },
+    "C04": {
+        "text": "Offset-free write-fonts tables (Maxp, Hhea, Os2 in every version) are serialised with the real write_into and re-read: every getter equals the field written, version-dependent fields present exactly when required, to_owned_table gives back the value, re-serialisation gives the same bytes.",
+        "design_ref": "DESIGN.md §3 C04",
+        "note": "Through an in-crate hook that bypasses the packing graph; any value with a non-null offset (most layout/colour/name structure), hence 'every offset resolves to the subtable written', is NOT decided. RandomState::new is stubbed.",
+        "technique": "solver-based bounded model checking (Kani/CBMC SAT) of the compiled /repo code (in-crate harness, RandomState stub)",
+    },
+    "C06": {
+        "text": "Checksum arithmetic vs the spec for every byte string <= 12 bytes, additivity over padded concatenation, the head checksum-adjustment identity, round4/padding arithmetic, and FontRef::table_data on a symbolic 3-record directory.",
+        "design_ref": "DESIGN.md §3 C06",
+        "note": "FontBuilder::build's own assembly (ordering, offsets, insertion-order independence, copy_missing_tables) is outside the claim: BTreeMap/Vec churn is out of CBMC's reach.",
+        "technique": "solver-based bounded model checking (Kani/CBMC SAT) of the compiled /repo code against a spec transcription",
+    },
+    "C08": {
+        "text": "cmap format 4 and 12 lookup vs a transcription of the OpenType spec for EVERY code point on symbolic subtables (<= 3 segments / groups), iterators ascend and agree with lookup, first-subtable-wins selection; the format-4 builder kernel for 1 (thorough: 2) symbolic mappings answers exactly the mapping given.",
+        "design_ref": "DESIGN.md §3 C08",
+        "note": "from_mappings' own sort/dedup, format 12 building, format 14, skrifa Charmap and more than 3 segments are outside the claim; reader and writer halves compose by argument, not in one query.",
+        "technique": "solver-based bounded model checking (Kani/CBMC SAT) of the compiled /repo code against a spec transcription",
+    },
+    "C09": {
+        "text": "SimpleGlyph point decoding (flags with REPEAT, short/same/long deltas, wrapping accumulation) vs the glyf spec on symbolic glyphs of <= 3 points; points() and read_points_fast agree; totality on arbitrary bytes.",
+        "design_ref": "DESIGN.md §3 C09",
+        "note": "Reader half only; the glyf writer (SimpleGlyph FontWrite, GlyfLocaBuilder, composite writing, loca format choice) is outside the claim.",
+        "technique": "solver-based bounded model checking (Kani/CBMC SAT) of the compiled /repo code against a spec transcription",
+    },
+    "C10": {
+        "text": "Packed point numbers and packed deltas decode exactly as the spec's algorithm on every byte string <= 8/10 bytes; PackedDeltas written by write-fonts read back unchanged (<= 4 values).",
+        "design_ref": "DESIGN.md §3 C10",
+        "note": "IUP optimisation (f64 dynamic program), GlyphVariations building and drawing at a location are outside the claim.",
+        "technique": "solver-based bounded model checking (Kani/CBMC SAT) of the compiled /repo code against a spec transcription",
+    },
+    "C11": {
+        "text": "Axis normalisation is total and clamped for ALL i32 inputs and exact/monotone on operand slices; avar segment maps interpolate linearly and exactly; region tent scalars and DeltaSetIndexMap lookups equal their specified values for every coordinate / index.",
+        "design_ref": "DESIGN.md §3 C11",
+        "note": "VariationStoreBuilder (write side) is outside the claim, so 'every delta set is retrievable through the returned index' is not decided; stores with > 1 region per query.",
+        "technique": "solver-based bounded model checking (Kani/CBMC SAT) of the compiled /repo code against exact-rational reference models",
+    },
+    "C12": {
+        "text": "Scratch memory: for every Outline shape (counts <= 3), both hinting modes and every start alignment, a buffer of the advertised size suffices, slices have the documented lengths, are aligned and pairwise disjoint.",
+        "design_ref": "DESIGN.md §3 C12",
+        "note": "The history/reuse/thread clauses of C12 and path well-formedness are NOT decided by this check (whole fonts, Vec growth and thread schedules are out of reach).",
+        "technique": "solver-based bounded model checking (Kani/CBMC SAT) of the compiled /repo code (in-crate harness)",
+    },
+    "C13": {
+        "text": "The recursion guard: Decycler one step from an arbitrary state (depth <= 64, any ids), cycle detection for every periodic id sequence of period <= 3 within 2p+1 levels, exact depth limit, no false cycle on distinct ids.",
+        "design_ref": "DESIGN.md §3 C13",
+        "note": "Callback balance (push/pop nesting) of traverse_with_callbacks over whole paint graphs is NOT decided; a mutant dropping one pop_* is not detected.",
+        "technique": "solver-based bounded model checking (Kani/CBMC SAT) of the compiled /repo code (in-crate harness)",
+    },
+    "C14": {
+        "text": "BitPage with fully symbolic contents: insert/remove/contains/insert_range/remove_range/clear/union/intersect/subtract/iter/iter_after/iter_ranges/len against the 512-element mathematical set, one operation from an arbitrary page.",
+        "design_ref": "DESIGN.md §3 C14",
+        "note": "Operation sequences through the public IntSet API, BitSet page maps, inverted sets, RangeSet and the sparse-bit-set codec are outside the claim (symbolic Vec insertion / VecDeque growth did not finish in 15 min).",
+        "technique": "solver-based bounded model checking (Kani/CBMC SAT) of the compiled /repo code (in-crate harness, one inductive step from an arbitrary valid page)",
+    },
+    "C16": {
+        "text": "Coverage format 1/2 and ClassDef format 1/2 lookups equal the spec for EVERY glyph id on symbolic tables (<= 6 glyphs / 3 ranges); iterators agree with get; totality on arbitrary bytes.",
+        "design_ref": "DESIGN.md §3 C16",
+        "note": "Reader side only: the layout builders and overflow splitting in write-fonts — the property's main subject — are outside the claim; a splitting off-by-one is not detected.",
+        "technique": "solver-based bounded model checking (Kani/CBMC SAT) of the compiled /repo code against a spec transcription",
+    },
+    "C20": {
+        "text": "A reading of the same solver runs: every arithmetic-overflow check and debug assertion on the paths explored for C01/C02/C06-C16 (Kani models the overflow-checked dev profile), plus the E2 full-width obligations of the fixed-point kernels. A candidate counts only after the native dev-profile replay panics with the same message.",
+        "design_ref": "DESIGN.md §3 C20",
+        "note": "Quick tier: hand-written harnesses, the 256 one-step opcode queries and a rotated window of accessor queries; thorough adds the generated table walkers and two-step opcode queries. The auto-hinter, CFF hinter, subsetting and patch code are outside the claim.",
+        "technique": "solver-based bounded model checking (Kani/CBMC SAT) of the compiled /repo code + MIR->SMT (z3) for the arithmetic leaves; native replay of every counterexample",
+    },
+
     "C15": {
         "text": "Bounded model checking of the real font-types code: every scalar type's byte round trip, ordering, 24-bit saturation, "
                 "fixed-point conversions, float round trips (all 2^16 / 2^32 values, CBMC's IEEE model) and Mul (all 2^64 operand pairs) are "
-                "decided at full machine width against exact-integer reference models; Div and mul_div are decided on stated operand slices by CBMC.",
+                "decided at full machine width against exact-integer reference models; Div and mul_div are decided at full width (all 2^64 / 2^96 operand tuples) by the MIR->SMT engine and on operand slices by CBMC.",
         "design_ref": "DESIGN.md §3 C15",
-        "note": "Trusted: rustc/Kani translation, CBMC+cadical, the few-line reference models in harness/k_types/src/*.rs. Div/mul_div at full width "
-                "are outside the CBMC claim (slices: see evidence bounds). serde/Display impls and kurbo OtRound impls are not covered.",
-        "technique": "solver-based bounded model checking (Kani/CBMC SAT) of the compiled crate against exact-integer reference models",
+        "note": "Trusted: rustc/Kani translation, CBMC+cadical, the few-line reference models in harness/k_types/src/*.rs. Trusted for E2: the MIR->SMT translator (validated every run against the real functions on concrete vectors and cross-checked int vs bit-vector encoding) and z3 5.1. serde/Display impls and kurbo OtRound impls are not covered.",
+        "technique": "solver-based bounded model checking (Kani/CBMC SAT) of the compiled crate against exact-integer reference models + MIR->SMT (z3 Int encoding) at full width for Mul/Div/mul_div",
     },
 }
 NOT_APPLICABLE = {
